@@ -46,6 +46,7 @@ type Profile struct {
 	Refresh      bool   // nodes that render twice (… HALT; RELOAD …; HALT; INCMP …)
 	SizeFlip     bool   // a sink symbol is loaded under a size limit in some nodes
 	EndAfterInput bool  // end nodes of the shape HALT; INCMP t 1; HALT
+	FallMove     bool   // menu nodes that end in a MOVE behind their INCMP lines
 	ManySyms     bool   // up to 28 external symbols, nodes that load up to 20 of them
 	Unicode      bool   // multi-byte UTF-8 in labels, translations, static template text and padded values
 	StaticSyms   bool   // some external symbols are static-load symbols with per-language entries
@@ -528,7 +529,15 @@ func Generate(t *tape.Tape, p Profile) *App {
 				}
 				inc = append(inc, Inst{Op: INCMP, A: postTarget(i, browse), B: sel})
 			}
-			if t.Chance(1, 2) || len(inc) == 0 {
+			fallMove := p.FallMove && len(inc) > 0 && t.Chance(1, 3)
+			for _, in := range inc {
+				if in.A == ">" || in.A == "<" || in.A == "." {
+					// a line that re-enters this node would run the node's own code again behind the MOVE,
+					// at the MOVE's target: legal, but then "the page of node X" means nothing any more
+					fallMove = false
+				}
+			}
+			if !fallMove && (t.Chance(1, 2) || len(inc) == 0) {
 				w := Inst{Op: INCMP, A: postTarget(i, false), B: "*"}
 				if p.WildAnywhere && len(inc) > 0 {
 					pos := t.Int(len(inc) + 1)
@@ -556,6 +565,11 @@ func Generate(t *tape.Tape, p Profile) *App {
 				inc = append(inc[:pos], append([]Inst{cr}, inc[pos:]...)...)
 			}
 			code = append(code, inc...)
+			if fallMove {
+				// "0 goes back, anything else goes on": a MOVE behind the INCMP lines instead of a wildcard.
+				// It is also what runs first after one of the lines above has matched.
+				code = append(code, Inst{Op: MOVE, A: postTarget(i, false)})
+			}
 		}
 		nd.Code = code
 		sink := ""
